@@ -94,6 +94,8 @@ def _run_shard(args):
         return ("ok", acc)
     except Exception:
         return ("err", f"shard {shard!r}\n{traceback.format_exc()}")
+    finally:
+        env._cleanup()  # pool workers exit without running atexit handlers
 
 
 def pmap(modname, fn, shards, procs=None):
